@@ -379,6 +379,54 @@ func materialStage(r *ev.Run, m int) {
 					}
 				})
 			}
+			// colour configurations that switch the sampler and the density between their shortcuts: no colours at all
+			// (an emission-only lamp material) must still be one consistent lobe; diffuse colour only must still be
+			// the equal mixture the density reports
+			for _, alpha := range []float64{0, 3, 50} {
+				alpha := alpha
+				add("phong-colours", func() {
+					want := n.Scale(2 * n.Dot(d)).Sub(d).Scale(-1)
+					lamp := &render3d.PhongMaterial{Alpha: alpha, EmissionColor: render3d.NewColor(2)}
+					c := rcase{"PhongMaterial", fmt.Sprintf("alpha=%g, emission only", alpha), arr(n), arr(d), nil}
+					ss := enumerate(m, 2, func(g *rand.Rand) interface{} { return lamp.SampleSource(g, n, d) })
+					r.Eval(len(ss))
+					if checkLobe(r, "Phong/source-emission-only", c.Params+fmt.Sprintf(" normal %v dest %v", n, d), c, want, ss, func(s c3) float64 { return lamp.SourceDensity(n, s, d) }, 0) {
+						r.NontrivialAdd(1)
+					}
+					matte := &render3d.PhongMaterial{Alpha: alpha, DiffuseColor: render3d.NewColor(0.5)}
+					spec := &render3d.PhongMaterial{Alpha: alpha, SpecularColor: render3d.NewColor(0.5)}
+					lam := &render3d.LambertMaterial{}
+					c2 := rcase{"PhongMaterial", fmt.Sprintf("alpha=%g, diffuse colour only", alpha), arr(n), arr(d), nil}
+					mm := m - 1
+					if mm < 3 {
+						mm = 3
+					}
+					ms := enumerate(mm, 3, func(g *rand.Rand) interface{} { return matte.SampleSource(g, n, d) })
+					r.Eval(len(ms))
+					// the density must be the mixture the sampler draws from: the share of call sequences routed to each
+					// part, weighted with that part's density, at probe directions
+					nSpec := 0
+					for _, sq := range ms {
+						sub := &script{}
+						for _, k := range sq.ks[1:] {
+							v, _ := latticeVal(k, mm)
+							sub.vals = append(sub.vals, v)
+						}
+						if spec.SampleSource(rand.New(sub), n, d).Dist(sq.out.(c3)) <= 1e-12 {
+							nSpec++
+						}
+					}
+					share := float64(nSpec) / float64(len(ms))
+					for _, sdir := range []c3{dirAt(want, 0.9, 1), dirAt(want, 0.2, 4), dirAt(n.Scale(-1), 0.7, 2), dirAt(n.Scale(-1), 0.1, 5)} {
+						got := matte.SourceDensity(n, sdir, d)
+						exp := share*spec.SourceDensity(n, sdir, d) + (1-share)*lam.SourceDensity(n, sdir, d)
+						if !(math.Abs(got-exp) <= 1e-9*(1+exp)) {
+							r.Violation("Phong/mixture-density-diffuse-only", fmt.Sprintf("alpha=%g: %d of %d call sequences use the specular sampler, so the density at %v should be %g, reported %g", alpha, nSpec, len(ms), sdir, exp, got), c2)
+							return
+						}
+					}
+				})
+			}
 			for _, g := range []float64{-0.9, -0.5, 0, 0.5, 0.9} {
 				g := g
 				add("hg", func() {
